@@ -232,7 +232,7 @@ theorem ti_unknown_opaque (tin : TMap) (e : Expr) (h : isOpaque e = true) : tyE 
 theorem ti_unknown_assign (ts : List Expr) : bindAllT R none ts = [] := by
   induction ts with
   | nil => rfl
-  | cons t ts ih => cases t <;> simp [bindAllT, bindT, ih]
+  | cons t ts ih => simp [bindAllT, bindT_none t, ih]
 
 /-- An annotation is only ever written from a known set: every `TYPES` annotation of an expression visit is
 the set `tyE` computes for the annotated node. -/
